@@ -32,7 +32,7 @@ func (t *procsTrigger) tick() {
 // procsChange: the result of one call is the same when GOMAXPROCS is changed while the call runs
 // (the worker pools are sized once; nothing may be dropped, duplicated or waited for in vain).
 func procsChange(r *vlib.Run) {
-	r.Section("procs.changed-mid-call", r.N(60, 600), vlib.SectionOpts{Sequential: true, Watchdog: 10 * time.Minute}, func(c *vlib.Case) {
+	r.Section("procs.changed-mid-call", r.N(60, 600), vlib.SectionOpts{Sequential: true, Watchdog: 2 * time.Minute}, func(c *vlib.Case) {
 		rng := c.Rng
 		from := []int{4, 8, 16, 33}[rng.Intn(4)]
 		to := []int{1, 2, 3}[rng.Intn(3)]
